@@ -424,3 +424,22 @@ Proof.
   rewrite Hscan. cbn [ps_open ps_depth ps_closed andb negb]. cbn [Z.ltb Z.compare].
   reflexivity.
 Qed.
+
+(** ** the scope keyword of a decorator line (since fix 7721f5d): whatever occurrence [find_kw]
+    returns is not the tail of a longer identifier - the scope keyword is never taken from
+    inside loop_scope, my_scope ... - for every line and every pattern *)
+Theorem find_kw_not_inside_identifier pat t : forall fuel from p,
+  find_kw fuel pat t from = Some p ->
+  exists pre, slice_to t p = Some pre /\ match rev pre with c :: _ => ident_char c = false | [] => True end.
+Proof.
+  induction fuel as [|f IH]; intros from p H; [discriminate|].
+  cbn [find_kw] in H.
+  destruct (slice_from t from) as [rest|]; [|discriminate].
+  destruct (Text.find pat rest) as [k|]; [|discriminate].
+  destruct (slice_to t (from + k)) as [pre|] eqn:Ep; [|discriminate].
+  destruct (rev pre) as [|c r] eqn:Er.
+  - injection H as <-. exists pre. split; [exact Ep|]. now rewrite Er.
+  - destruct (ident_char c) eqn:Ec.
+    + now apply IH in H.
+    + injection H as <-. exists pre. split; [exact Ep|]. now rewrite Er.
+Qed.
